@@ -21,6 +21,7 @@ from ..domain_tuple import DomainTuple
 from ..domains.gl_space import GLSpace
 from ..domains.hp_space import HPSpace
 from ..domains.rg_space import RGSpace
+from .contraction_operator import ContractionOperator
 from .diagonal_operator import DiagonalOperator
 from .endomorphic_operator import EndomorphicOperator
 from .harmonic_operators import HarmonicTransformOperator
@@ -69,25 +70,30 @@ def _ConvolutionOperator(domain, kernel, space=None):
     lm = [d for d in domain]
     lm[space] = lm[space].get_default_codomain()
     lm = DomainTuple.make(lm)
-    utilities.check_object_identity(lm[space], kernel.domain[0])
+    if lm[space] != kernel.domain[0]:
+        raise ValueError(f"Mismatch:\n{lm[space]}\n{kernel.domain[0]}")
     HT = HarmonicTransformOperator(lm, domain[space], space)
     diag = DiagonalOperator(kernel*domain[space].total_volume, lm, (space,))
     wgt = WeightApplier(domain, space, 1)
     op = HT(diag(HT.adjoint(wgt)))
-    return _ApplicationWithoutMeanOperator(op)
+    return _ApplicationWithoutMeanOperator(op, space)
 
 
 class _ApplicationWithoutMeanOperator(EndomorphicOperator):
-    def __init__(self, op):
+    def __init__(self, op, space):
         self._capability = self.TIMES | self.ADJOINT_TIMES
         if op.domain != op.target:
             raise TypeError("Operator needs to be endomorphic")
         self._domain = op.domain
         self._op = op
+        # volume-weighted mean over `space`, and its broadcast back
+        vol = self._domain[space].total_volume
+        self._mean = ContractionOperator(self._domain, space, 1).scale(1./vol)
+        self._bcast = ContractionOperator(self._domain, space).adjoint
 
     def apply(self, x, mode):
         self._check_input(x, mode)
-        mean = x.s_mean()
+        mean = self._bcast(self._mean(x))
         return mean + self._op.apply(x - mean, mode)
 
     def __repr__(self):
